@@ -16,8 +16,8 @@ StyleSeq == <<"only_r", "unq_m", "only_m", "unq_r">>
 Rels == IF Tier = "quick"
         THEN SUBSET ({<<i, j>> \in (1..NP) \X (1..NP) : i < j} \cup {<<2, 2>>})
         ELSE SUBSET Pairs(NP)
-\* <<style, var import, seed option, prune option>>
-Combo(po, k) == <<StyleSeq[((po + k) % 4) + 1], (po + k) % 2 = 0, ((po + 2 * k) % 4) + 1, po>>
+\* <<style, var import, seed option, prune option, generic interface>>
+Combo(po, k) == <<StyleSeq[((po + k) % 4) + 1], (po + k) % 2 = 0, ((po + 2 * k) % 4) + 1, po, (po + k) % 3 = 0>>
 Combos == {Combo(po, k) : po \in 1..NPruneOpts, k \in (IF Tier = "quick" THEN {0} ELSE 0..1)}
 
 MCInit == /\ P = <<>> /\ C = <<>> /\ tgt = <<>> /\ order = <<>> /\ edges = {} /\ queue = <<>> /\ ign = <<>>
@@ -29,7 +29,7 @@ Pick2 == /\ pc = "pick2" /\ \E R \in Rels : sel' = <<sel[1], R>>
          /\ pc' = "pick3" /\ UNCHANGED <<P, C, tgt, order, edges, queue, ign>>
 Pick3 == /\ pc = "pick3"
          /\ \E cb \in Combos :
-               /\ P' = MkProject(NP, sel[1], sel[2], cb[1], cb[2], "sep")
+               /\ P' = MkProjectI(NP, sel[1], sel[2], cb[1], cb[2], "sep", cb[5])
                /\ LegalProject(P')
                /\ C' = ConfOf(P', cb[3], cb[4])
                /\ LegalConfig(P', C')
